@@ -25,7 +25,7 @@ def make_overlap_problem(rng, k):
     name = list(CLUSTERS)[k % len(CLUSTERS)]
     el, xyz, sidx = CLUSTERS[name]
     xyz = np.array(xyz, float)
-    ckind = ["ortho", "tric", "upper", "rotated"][(k // 6) % 4]
+    ckind = ["ortho", "tric", "upper", "rotated", "rot-ortho", "mono-yz"][(k // 6) % 6]
     cell = FG.make_cell(rng, 13.0, ckind)
     inv = np.linalg.inv(cell)
     pos, els = [], []
@@ -62,10 +62,16 @@ def make_overlap_problem(rng, k):
     if mode != "empty":
         for e, p in zip(sel_el, sp):
             r = rng.random()
-            what = {"all-kept": "keep", "all-changed": "change"}.get(mode) or ("keep" if r < 0.45 else "change" if r < 0.8 else "drop")
+            what = {"all-kept": "keep", "all-changed": "change"}.get(mode) or ("keep" if r < 0.35 else "nudge" if r < 0.5 else "change" if r < 0.8 else "drop")
             if what == "keep":
                 rel.append(e)
                 rpos.append(FG.zv(p))
+            elif what == "nudge":
+                # same element, moved by 0.02 - 0.09 A: NOT the same atom, it is removed and a new one is inserted next to it
+                d = [rng.choice([-1, 1]) * rng.randrange(64, 256, 8) for _ in range(2)]
+                z = FG.zv(p)
+                rel.append(e)
+                rpos.append((z[0] + d[0], z[1], z[2] + d[1]))
             elif what == "change":
                 rel.append(rng.choice(["F", "S"]))
                 rpos.append(FG.zv(p))
